@@ -197,3 +197,46 @@ def class_defines(method_names, modules=None):
                     if isinstance(b, ast.FunctionDef) and b.name in method_names:
                         out.append((m, n.name, b.name))
     return out
+
+
+def self_state_writes(module, classname, allowed=('__init__',)):
+    """sites in methods of `classname` (other than the allowed ones) that store to an attribute of self or mutate a container held in one:
+    self.X = .., self.X[..] = .., self.X.append(..), del self.X[..], setattr(self, ..). An object without such sites behaves the same on every call."""
+    tree = repo.module_ast(module)
+    src = repo.module_src(module)
+    out = []
+    for cls in ast.walk(tree):
+        if not (isinstance(cls, ast.ClassDef) and cls.name == classname):
+            continue
+        for fn in cls.body:
+            if not isinstance(fn, (ast.FunctionDef, ast.AsyncFunctionDef)) or fn.name in allowed:
+                continue
+            selfname = fn.args.args[0].arg if fn.args.args else 'self'
+
+            def on_self(e):
+                while isinstance(e, (ast.Attribute, ast.Subscript)):
+                    if isinstance(e, ast.Attribute) and isinstance(e.value, ast.Name) and e.value.id == selfname:
+                        return True
+                    e = e.value
+                return False
+            for n in ast.walk(fn):
+                hit = False
+                if isinstance(n, (ast.Assign, ast.Delete)):
+                    ts = []
+                    stack = list(n.targets)
+                    while stack:
+                        x = stack.pop()
+                        if isinstance(x, (ast.Tuple, ast.List)):
+                            stack += list(x.elts)
+                        else:
+                            ts.append(x)
+                    hit = any(isinstance(t, (ast.Attribute, ast.Subscript)) and on_self(t) for t in ts)
+                elif isinstance(n, (ast.AugAssign, ast.AnnAssign)):
+                    hit = isinstance(n.target, (ast.Attribute, ast.Subscript)) and on_self(n.target)
+                elif isinstance(n, ast.Call) and isinstance(n.func, ast.Attribute) and n.func.attr in MUTATORS and on_self(n.func.value):
+                    hit = True
+                elif isinstance(n, ast.Call) and isinstance(n.func, ast.Name) and n.func.id in ('setattr', 'delattr') and n.args and isinstance(n.args[0], ast.Name) and n.args[0].id == selfname:
+                    hit = True
+                if hit:
+                    out.append(Site(module, f'{classname}.{fn.name}', n.lineno, (ast.get_source_segment(src, n) or '')[:100].replace('\n', ' ')))
+    return out
